@@ -305,7 +305,7 @@ include hwf hmp hroot hxx hlim hext hst his
 theorem scan_layer_verdict :
     ∃ g, generateGraph mt base root mp entries o = .ok g ∧
       ∀ (mt' : Str → Str → Bool) (ls : Layers) (r : LRuleSpec) (larch : LArch),
-        layerDomain (scanArch root (toSEntries (isExcluded mt o.exclusions) base entries) mp is) ls r = true →
+        layerDomain' (scanArch root (toSEntries (isExcluded mt o.exclusions) base entries) mp is) ls r = true →
         (r.anything = true → r.verb = .shouldNot) →
         resolves mt' g.nodes larch ls = true →
         (assertAppliesLayer mt' (compileLayerRule larch r) g).cls =
@@ -317,7 +317,7 @@ theorem scan_layer_verdict :
 theorem scan_layer_verdict_names :
     ∃ g, generateGraph mt base root mp entries o = .ok g ∧
       ∀ (mt' : Str → Str → Bool) (ls : Layers) (r : LRuleSpec),
-        layerDomain (scanArch root (toSEntries (isExcluded mt o.exclusions) base entries) mp is) ls r = true →
+        layerDomain' (scanArch root (toSEntries (isExcluded mt o.exclusions) base entries) mp is) ls r = true →
         (r.anything = true → r.verb = .shouldNot) →
         (assertAppliesLayer mt' (compileLayerRule (compileLArch ls) r) g).cls =
           VClass.ofBool (layerVerdict (scanArch root (toSEntries (isExcluded mt o.exclusions) base entries) mp is) ls r) := by
@@ -511,7 +511,7 @@ theorem scan_rule_verdict_limit_of (g g0 : PGraph Str)
 theorem scan_layer_verdict_limit :
     ∃ g, generateGraph mt base root mp entries o = .ok g ∧
       ∀ (mt' : Str → Str → Bool) (ls : Layers) (r : LRuleSpec) (larch : LArch),
-        layerDomain (truncArch (shiftedLimit o mp)
+        layerDomain' (truncArch (shiftedLimit o mp)
           (scanArch root (toSEntries (isExcluded mt o.exclusions) base entries) mp is)) ls r = true →
         (r.anything = true → r.verb = .shouldNot) →
         resolves mt' g.nodes larch ls = true →
@@ -554,7 +554,7 @@ def exLAny : LRuleSpec :=
 /-- the hypotheses on layers and rules (`resolves` for name layers holds on every node list) … -/
 example :
     ∀ r ∈ [exLPass, exLFail, exLAny],
-      layerDomain (scanArch (s "r") (toSEntries (isExcluded noRe exOpts.exclusions) (s "/x/r") exTree) [] exIs) exLs r = true ∧
+      layerDomain' (scanArch (s "r") (toSEntries (isExcluded noRe exOpts.exclusions) (s "/x/r") exTree) [] exIs) exLs r = true ∧
       (r.anything = true → r.verb = .shouldNot) := by decide
 example (nodes : List Str) : resolves noRe nodes (compileLArch exLs) exLs = true := Pta.C05.resolves_names noRe nodes exLs
 
@@ -581,7 +581,7 @@ example :
     (generateGraph noRe (s "/x/r") (s "r") [] exTree exOpts).toOption.map
         (fun g => (resolves exMt g.nodes exLarchRe exLsRe,
           (assertAppliesLayer exMt (compileLayerRule exLarchRe exLFail) g).cls)) = some (true, .fail) ∧
-    layerDomain (scanArch (s "r") (toSEntries (isExcluded noRe exOpts.exclusions) (s "/x/r") exTree) [] exIs) exLsRe exLFail = true ∧
+    layerDomain' (scanArch (s "r") (toSEntries (isExcluded noRe exOpts.exclusions) (s "/x/r") exTree) [] exIs) exLsRe exLFail = true ∧
     layerVerdict (scanArch (s "r") (toSEntries (isExcluded noRe exOpts.exclusions) (s "/x/r") exTree) [] exIs) exLsRe exLFail =
       false := by decide
 
@@ -711,7 +711,7 @@ example :
     (truncArch (shiftedLimit o1 [S "app"])
       (scanArch (S "r") (toSEntries (isExcluded mt0 o1.exclusions) (S "/r") ents) [S "app"] limIs)).imports =
       [(nm "r.app.a", nm "r.app.b"), (nm "r.app.b", nm "r.app.c")] ∧
-    layerDomain (truncArch (shiftedLimit o1 [S "app"])
+    layerDomain' (truncArch (shiftedLimit o1 [S "app"])
       (scanArch (S "r") (toSEntries (isExcluded mt0 o1.exclusions) (S "/r") ents) [S "app"] limIs)) limLs limLR = true ∧
     layerVerdict (truncArch (shiftedLimit o1 [S "app"])
       (scanArch (S "r") (toSEntries (isExcluded mt0 o1.exclusions) (S "/r") ents) [S "app"] limIs)) limLs limLR = true ∧
